@@ -322,17 +322,31 @@ def _make_design(d, objs):
         return objs[p["src"]] if "src" in p else _const(p)
     k = d["kind"]
     bad = d.get("bad")
+    call = d.get("call")
+
+    def fn(sd):
+        return sd if call == "default" else sd[d["strategy"]]
     if k in ("lowpass", "highpass"):
-        return getattr(al, k)[d["strategy"]](arg(d["p1"]))
+        if call == "kw":
+            return getattr(al, k)[d["strategy"]](cutoff=arg(d["p1"]))
+        return fn(getattr(al, k))(arg(d["p1"]))
     if k == "resonator":
-        return al.resonator[d["strategy"]](arg(d["p1"]), None if bad == "none-bw" else arg(d["p2"]))
+        bw = None if bad == "none-bw" else arg(d["p2"])
+        if call == "kw":
+            return al.resonator[d["strategy"]](bandwidth=bw, freq=arg(d["p1"]))
+        return fn(al.resonator)(arg(d["p1"]), bw)
     if k == "klapuri":
-        return al.gammatone.klapuri(arg(d["p1"]), None if bad == "none-bw" else arg(d["p2"]))
+        bw = None if bad == "none-bw" else arg(d["p2"])
+        if call == "kw":
+            return al.gammatone.klapuri(bandwidth=bw, freq=arg(d["p1"]))
+        return al.gammatone.klapuri(arg(d["p1"]), bw)
     from fractions import Fraction
     delay = float(d["delay"]) if d.get("dtype") == "float" else d["delay"]
     if bad == "frac-delay":
         delay = Fraction(2 * d["delay"] + 1, 2)
-    return al.comb[d["strategy"]](delay, arg(d["p1"]))
+    if call == "kw":
+        return al.comb[d["strategy"]](**{"delay": delay, ("tau" if d["strategy"] == "tau" else "alpha"): arg(d["p1"])})
+    return fn(al.comb)(delay, arg(d["p1"]))
 
 
 def _instant(cols):
@@ -713,7 +727,17 @@ def _fill(rng, d, p1=None, p2=None, safe=False, typed=False):
         return {"const": _f(_role_value(rng, role, safe)), "type": "float"}
     d["p1"] = p1 if p1 is not None else const(r1)
     d["p2"] = p2 if p2 is not None else (const(r2) if r2 else {"const": 0, "type": "int"})
+    # call shape inside a history (harness only; the Lean side is the call layer, theorem calls_with_omitted_parameters):
+    # all-keyword arguments, or the StrategyDict called directly when the strategy is its default
+    u = rng.random()
+    if u < 0.2:
+        d["call"] = "kw"
+    elif u < 0.45 and (d["kind"], d.get("strategy")) in DEFAULT_CALLS:
+        d["call"] = "default"
     return d
+
+
+DEFAULT_CALLS = {("lowpass", "pole"), ("highpass", "z"), ("resonator", "poles_exp"), ("comb", "fb")}
 
 
 def _interleave(rng, nd, per, ctrls, pattern):
@@ -1165,6 +1189,9 @@ def delay_class(d):
 
 def tally_hist(eng, c, io):
     eng.count("hist_designs", len(c["dsgs"]))
+    for d in c["dsgs"]:
+        eng.count("hist_call_shape", {"kw": "strategy, all-keyword", "default": "StrategyDict called directly (default strategy)"}.get(
+            d.get("call"), "strategy, positional"))
     eng.count("hist_steps", _bucket(len(c["ops"]), (4, 8, 16, 32)))
     eng.count("hist_non_Stream_iterable_argument", "refused today (TypeError)" if outside(c, True) else
               "accepted today" if outside(c) else "none")
